@@ -276,6 +276,7 @@ type loop struct {
 	stats   map[string]int
 	viol    []string
 	quiet   int
+	sched   *drummer.VerifScheduler // one long-lived scheduler per leader, as in Drummer; replaced now and then (leader change)
 }
 
 func (l *loop) fail(prop, clause, sig, what string) {
@@ -471,17 +472,20 @@ func (l *loop) schedule() {
 	if !l.launched() && len(sc.ShardImage.Shards) == 0 {
 		mode = "launch"
 	}
-	res := drummer.VerifSchedule(l.nh, cj, draws, mode)
+	if l.sched == nil || l.r.Intn(25) == 0 {
+		l.sched = drummer.VerifNewScheduler()
+	}
+	res := l.sched.Schedule(l.nh, cj, draws, mode)
 	reps := []J{}
 	for _, cr := range res.Repairs {
 		reps = append(reps, J{"s": cr.ShardID, "f": cr.Failed, "o": cr.OK, "w": cr.ToStart})
 	}
 	l.emit(J{"op": "schedule", "mode": mode, "draws": draws, "shards": res.ShardsOrder, "hosts": res.HostsOrder, "repairs": reps})
 	if mode == "maintain" {
-		jd := &schedx.Judge{Run: l.run, Seq: l.seq, Idx: len(l.opsLog), Ops: append([]J{}, l.opsLog...)}
+		jd := &schedx.Judge{Run: l.run, Seq: l.seq, Idx: len(l.opsLog), Ops: append([]J{}, l.opsLog...), ConsistentHistory: true}
 		jd.Maintain(schedx.ParseContext(cj), &res, strings.Contains(res.Panic, "random draws exhausted"), draws)
 	} else {
-		jd := &schedx.Judge{Run: l.run, Seq: l.seq, Idx: len(l.opsLog), Ops: append([]J{}, l.opsLog...)}
+		jd := &schedx.Judge{Run: l.run, Seq: l.seq, Idx: len(l.opsLog), Ops: append([]J{}, l.opsLog...), ConsistentHistory: true}
 		jd.Launch(schedx.ParseContext(cj), &res, strings.Contains(res.Panic, "random draws exhausted"))
 	}
 	if res.Panic != "" {
